@@ -97,6 +97,49 @@ OPS['readjsall'] = async (pol, enc, hdr, modi, d, comment, text, bytes_txt) => {
     return baseline;
 };
 
+function dec_cell(t) { return t === 'N' ? null : dec_str(t); }
+function dec_cell_table(t) {
+    if (t === '~') return [];
+    return t.split(';').map(r => r === '!' ? [] : r.split(',').map(dec_cell));
+}
+
+async function do_write(pol, enc, d, linesep, hdr, table) {
+    let chunks = [];
+    const stream = new Writable({ write(chunk, encoding, cb) { chunks.push(Buffer.from(chunk)); cb(); } });
+    let w;
+    try {
+        w = new rbql_csv.CSVWriter(stream, false, js_encoding(enc), d, pol, linesep);
+        if (hdr !== null) await w.set_header(hdr);
+        for (const rec of table) await w.write(rec.slice());
+        await w.finish();
+    } catch (e) {
+        const msg = String(e && e.message ? e.message : e);
+        if (msg.indexOf('Monocolumn') != -1) return ['err mono', null];
+        let m = /Inconsistent number of columns in output header and the current record: (\d+) != (\d+)/.exec(msg);
+        if (m) return [`err width ${m[1]} ${m[2]}`, null];
+        return ['err io ' + enc_str(msg.slice(0, 200)), null];
+    }
+    const raw = Buffer.concat(chunks);
+    const text = raw.toString(enc == 'utf-8' ? 'utf-8' : 'binary');
+    const ws = w.get_warnings();
+    const none_flag = ws.some(x => x.indexOf('null values') != -1);
+    const delim_flag = ws.some(x => x.indexOf('contain separator') != -1);
+    return [`ok ${enc_str(text)} none=${none_flag ? 1 : 0} delim=${delim_flag ? 1 : 0}`, raw];
+}
+
+OPS['write'] = async (pol, js, d, linesep, hdr, table) => {
+    const header = hdr === 'N' ? null : dec_list(hdr.slice(1));
+    return (await do_write(pol, 'utf-8', dec_str(d), dec_str(linesep), header, dec_cell_table(table)))[0];
+};
+
+OPS['roundtrip'] = async (pol, js, enc, d, linesep, table) => {
+    if (enc == 'none') enc = 'utf-8';
+    const [res, raw] = await do_write(pol, enc, dec_str(d), dec_str(linesep), null, dec_cell_table(table));
+    if (raw === null) return res;
+    const rd = await read_result(make_stream(raw.length ? [raw] : []), null, enc, pol, '0', 'n', dec_str(d), null);
+    return res + ' | ' + rd;
+};
+
 OPS['readboth'] = async (pol, enc, hdr, modi, d, comment, text) => {
     const data = Buffer.from(dec_str(text), enc == 'utf-8' ? 'utf-8' : 'binary');
     return await read_result(make_stream(data.length ? [data] : []), null, enc, pol, hdr, modi, dec_str(d), comment == '~' ? null : dec_str(comment));
